@@ -440,9 +440,35 @@ func main() {
 			r.Inconclusive("cannot write the generated file: " + err.Error())
 			return
 		}
-		ap, perr := parsing.NewAccountsParser(path, new(big.Int).Set(entire), conv, keyGen)
+		// the configured supply is one *big.Int owned by the caller and reused for a later file (as a node that
+		// re-reads its configuration would): it must still say the same after the parser returned
+		supplyArg := new(big.Int).Set(entire)
+		ap, perr := parsing.NewAccountsParser(path, supplyArg, conv, keyGen)
 		_ = os.Remove(path)
 		r.Eval(1)
+		if perr != nil && total.Sign() > 0 && entire.Cmp(total) > 0 {
+			// follow-up file checked against the SAME configured supply object: one valid entry worth exactly the
+			// difference the refused file left over; its total is not the configured supply, so it must be refused
+			left := new(big.Int).Sub(entire, total)
+			fa := freshAddr()
+			one := []entryJSON{{Address: conv.Encode(fa), Supply: left.String(), Balance: left.String(), StakingValue: "0", Delegation: delegationJSON{Address: "", Value: "0"}}}
+			buf2, _ := json.MarshalIndent(one, "", "  ")
+			path2 := filepath.Join(dir, fmt.Sprintf("genesis-%d-b.json", c.Idx))
+			if err = os.WriteFile(path2, buf2, 0o644); err == nil {
+				_, perr2 := parsing.NewAccountsParser(path2, supplyArg, conv, keyGen)
+				_ = os.Remove(path2)
+				r.Eval(1)
+				r.Count("followup_files_after_refusal", 1)
+				if perr2 == nil {
+					r.Violation(c.Idx, "accepted-invalid class=total-mismatch after-refused-file", fmt.Sprintf("%s converter: configured supply %s; a first file totalling %s was refused (%v); a second file totalling %s, checked against the same configured supply object, was accepted", kind, entire, total, perr, left),
+						map[string]interface{}{"converter": kind, "entire_supply": entire.String(), "first_file": json.RawMessage(buf), "second_file": json.RawMessage(buf2), "supply_object_after_first_call": supplyArg.String()})
+				}
+			}
+		}
+		if supplyArg.Cmp(entire) != 0 {
+			r.Violation(c.Idx, "configured-supply-modified", fmt.Sprintf("%s converter: the caller's configured supply was %s before NewAccountsParser and is %s after it (parser result: %v)", kind, entire, supplyArg, perr),
+				map[string]interface{}{"converter": kind, "entire_supply": entire.String(), "after": supplyArg.String(), "file": json.RawMessage(buf)})
+		}
 
 		detail := map[string]interface{}{"converter": kind, "entire_supply": entire.String(), "file": json.RawMessage(buf), "reference_reasons": reasonList}
 		if perr != nil {
